@@ -19,39 +19,39 @@ open Glm.Hand.C06
 theorem f11_finite_roundtrip (c : UInt32) (h : c < 0x800) (hf : !((c >>> 6) == 31)) :
     floatTo11bit (packed11bitToFloat c) = c := by
   unfold floatTo11bit packed11bitToFloat packed11ToFloat float2packed11 isZeroF isNaNF isInfF ltMinF geMaxF
-  bv_decide
+  bv_decide (config := { timeout := 180 })
 theorem f10_finite_roundtrip (c : UInt32) (h : c < 0x400) (hf : !((c >>> 5) == 31)) :
     floatTo10bit (packed10bitToFloat c) = c := by
   unfold floatTo10bit packed10bitToFloat packed10ToFloat float2packed10 isZeroF isNaNF isInfF ltMinF geMaxF
-  bv_decide
+  bv_decide (config := { timeout := 180 })
 /-- finite codes decode to finite non-negative floats; only code 0 decodes to zero -/
 theorem f11_finite_decodes_finite (c : UInt32) (h : c < 0x800) (hf : !((c >>> 6) == 31)) :
     packed11bitToFloat c < 0x7f800000 ∧ (packed11bitToFloat c = 0 ↔ c = 0) := by
-  unfold packed11bitToFloat packed11ToFloat; bv_decide
+  unfold packed11bitToFloat packed11ToFloat; bv_decide (config := { timeout := 180 })
 theorem f10_finite_decodes_finite (c : UInt32) (h : c < 0x400) (hf : !((c >>> 5) == 31)) :
     packed10bitToFloat c < 0x7f800000 ∧ (packed10bitToFloat c = 0 ↔ c = 0) := by
-  unfold packed10bitToFloat packed10ToFloat; bv_decide
+  unfold packed10bitToFloat packed10ToFloat; bv_decide (config := { timeout := 180 })
 /-- the Inf code decodes to +Inf and +Inf encodes to it -/
 theorem f11_inf : packed11bitToFloat 0x7c0 = 0x7f800000 ∧ floatTo11bit 0x7f800000 = 0x7c0 := by decide
 theorem f10_inf : packed10bitToFloat 0x3e0 = 0x7f800000 ∧ floatTo10bit 0x7f800000 = 0x3e0 := by decide
 /-- every NaN code decodes to a NaN, every NaN encodes to the all-ones NaN code -/
 theorem f11_nan_codes (c : UInt32) (h : c < 0x800) (he : (c >>> 6) == 31) (hm : !((c &&& 0x3f) == 0)) :
     isNaNF (packed11bitToFloat c) = true := by
-  unfold packed11bitToFloat isNaNF; bv_decide
+  unfold packed11bitToFloat isNaNF; bv_decide (config := { timeout := 180 })
 theorem f10_nan_codes (c : UInt32) (h : c < 0x400) (he : (c >>> 5) == 31) (hm : !((c &&& 0x1f) == 0)) :
     isNaNF (packed10bitToFloat c) = true := by
-  unfold packed10bitToFloat isNaNF; bv_decide
+  unfold packed10bitToFloat isNaNF; bv_decide (config := { timeout := 180 })
 theorem f11_nan_encodes (x : UInt32) (h : isNaNF x = true) : floatTo11bit x &&& 0x7ff = 0x7ff := by
-  unfold floatTo11bit isNaNF isZeroF at *; bv_decide
+  unfold floatTo11bit isNaNF isZeroF at *; bv_decide (config := { timeout := 180 })
 theorem f10_nan_encodes (x : UInt32) (h : isNaNF x = true) : floatTo10bit x &&& 0x3ff = 0x3ff := by
-  unfold floatTo10bit isNaNF isZeroF at *; bv_decide
+  unfold floatTo10bit isNaNF isZeroF at *; bv_decide (config := { timeout := 180 })
 /-- encoding never produces a NaN code from a number, nor the Inf code from a finite number -/
 theorem f11_encode_class (x : UInt32) (h : isNaNF x = false) :
     floatTo11bit x < 0x800 ∧ (floatTo11bit x ≥ 0x7c0 ↔ x = 0x7f800000) ∧ floatTo11bit x ≤ 0x7c0 := by
-  unfold floatTo11bit float2packed11 isZeroF isNaNF isInfF ltMinF geMaxF at *; bv_decide
+  unfold floatTo11bit float2packed11 isZeroF isNaNF isInfF ltMinF geMaxF at *; bv_decide (config := { timeout := 180 })
 theorem f10_encode_class (x : UInt32) (h : isNaNF x = false) :
     floatTo10bit x < 0x400 ∧ (floatTo10bit x ≥ 0x3e0 ↔ x = 0x7f800000) ∧ floatTo10bit x ≤ 0x3e0 := by
-  unfold floatTo10bit float2packed10 isZeroF isNaNF isInfF ltMinF geMaxF at *; bv_decide
+  unfold floatTo10bit float2packed10 isZeroF isNaNF isInfF ltMinF geMaxF at *; bv_decide (config := { timeout := 180 })
 
 /-! ### quantisation: truncation of the mantissa, clamping, monotonicity -/
 /-- in range `[smallest positive code, 65536)` decoding the code gives `x` with the low 17 mantissa
@@ -59,41 +59,41 @@ bits cleared: `decode ≤ x < decode + one mantissa step` -/
 theorem f11_truncates (x : UInt32) (h1 : 0x38020000 ≤ x) (h2 : x < 0x47800000) :
     packed11bitToFloat (floatTo11bit x) = x &&& 0xfffe0000 := by
   unfold floatTo11bit packed11bitToFloat packed11ToFloat float2packed11 isZeroF isNaNF isInfF ltMinF geMaxF
-  bv_decide
+  bv_decide (config := { timeout := 180 })
 theorem f10_truncates (x : UInt32) (h1 : 0x38040000 ≤ x) (h2 : x < 0x47800000) :
     packed10bitToFloat (floatTo10bit x) = x &&& 0xfffc0000 := by
   unfold floatTo10bit packed10bitToFloat packed10ToFloat float2packed10 isZeroF isNaNF isInfF ltMinF geMaxF
-  bv_decide
+  bv_decide (config := { timeout := 180 })
 /-- negative numbers (incl. -Inf, -0) and positive values below the smallest positive code encode to 0 -/
 theorem f11_clamps_low (x : UInt32) (hn : isNaNF x = false)
     (h : !((x &&& 0x80000000) == 0) || x < 0x38020000) : floatTo11bit x = 0 := by
-  unfold floatTo11bit float2packed11 isZeroF isNaNF isInfF ltMinF geMaxF at *; bv_decide
+  unfold floatTo11bit float2packed11 isZeroF isNaNF isInfF ltMinF geMaxF at *; bv_decide (config := { timeout := 180 })
 theorem f10_clamps_low (x : UInt32) (hn : isNaNF x = false)
     (h : !((x &&& 0x80000000) == 0) || x < 0x38040000) : floatTo10bit x = 0 := by
-  unfold floatTo10bit float2packed10 isZeroF isNaNF isInfF ltMinF geMaxF at *; bv_decide
+  unfold floatTo10bit float2packed10 isZeroF isNaNF isInfF ltMinF geMaxF at *; bv_decide (config := { timeout := 180 })
 /-- finite values above the largest finite code value (65024 / 64512) encode to it -/
 theorem f11_clamps_high (x : UInt32) (h1 : 0x477e0000 ≤ x) (h2 : x < 0x7f800000) :
     floatTo11bit x = 0x7bf ∧ packed11bitToFloat 0x7bf = 0x477e0000 := by
   unfold floatTo11bit packed11bitToFloat packed11ToFloat float2packed11 isZeroF isNaNF isInfF ltMinF geMaxF
-  bv_decide
+  bv_decide (config := { timeout := 180 })
 theorem f10_clamps_high (x : UInt32) (h1 : 0x477c0000 ≤ x) (h2 : x < 0x7f800000) :
     floatTo10bit x = 0x3df ∧ packed10bitToFloat 0x3df = 0x477c0000 := by
   unfold floatTo10bit packed10bitToFloat packed10ToFloat float2packed10 isZeroF isNaNF isInfF ltMinF geMaxF
-  bv_decide
+  bv_decide (config := { timeout := 180 })
 /-- monotone on the non-negative non-NaN floats (+Inf included) -/
 theorem f11_monotone (x y : UInt32) (hx : x ≤ 0x7f800000) (hy : y ≤ 0x7f800000) (h : x ≤ y) :
     floatTo11bit x ≤ floatTo11bit y := by
-  unfold floatTo11bit float2packed11 isZeroF isNaNF isInfF ltMinF geMaxF; bv_decide
+  unfold floatTo11bit float2packed11 isZeroF isNaNF isInfF ltMinF geMaxF; bv_decide (config := { timeout := 180 })
 theorem f10_monotone (x y : UInt32) (hx : x ≤ 0x7f800000) (hy : y ≤ 0x7f800000) (h : x ≤ y) :
     floatTo10bit x ≤ floatTo10bit y := by
-  unfold floatTo10bit float2packed10 isZeroF isNaNF isInfF ltMinF geMaxF; bv_decide
+  unfold floatTo10bit float2packed10 isZeroF isNaNF isInfF ltMinF geMaxF; bv_decide (config := { timeout := 180 })
 /-- decoding is strictly monotone on the finite codes (codes order like their values) -/
 theorem f11_decode_monotone (c d : UInt32) (hc : c < 0x7c0) (hd : d ≤ 0x7c0) (h : c < d) :
     packed11bitToFloat c < packed11bitToFloat d := by
-  unfold packed11bitToFloat packed11ToFloat; bv_decide
+  unfold packed11bitToFloat packed11ToFloat; bv_decide (config := { timeout := 180 })
 theorem f10_decode_monotone (c d : UInt32) (hc : c < 0x3e0) (hd : d ≤ 0x3e0) (h : c < d) :
     packed10bitToFloat c < packed10bitToFloat d := by
-  unfold packed10bitToFloat packed10ToFloat; bv_decide
+  unfold packed10bitToFloat packed10ToFloat; bv_decide (config := { timeout := 180 })
 
 /-! ### the word `packF2x11_1x10` -/
 /-- field k of the word is the code of component k (x at bit 0, y at bit 11, z at bit 22) -/
@@ -101,7 +101,7 @@ theorem packF2x11_1x10_layout (x y z : UInt32) :
     (packF2x11_1x10 x y z >>> 0) &&& 0x7ff = floatTo11bit x &&& 0x7ff ∧
     (packF2x11_1x10 x y z >>> 11) &&& 0x7ff = floatTo11bit y &&& 0x7ff ∧
     (packF2x11_1x10 x y z >>> 22) &&& 0x3ff = floatTo10bit z &&& 0x3ff := by
-  unfold packF2x11_1x10 asmF11F11F10; bv_decide
+  unfold packF2x11_1x10 asmF11F11F10; bv_decide (config := { timeout := 180 })
 /-- a word none of whose fields is a NaN code re-packs to itself -/
 def noNaNCode (v : UInt32) : Bool :=
   (!(((v >>> 6) &&& 0x1f) == 31) || ((v &&& 0x3f) == 0)) &&
@@ -113,7 +113,7 @@ theorem packF2x11_1x10_unpack (v : UInt32) (h : noNaNCode v = true) :
   unfold packF2x11_1x10 unpackF2x11_1x10_x unpackF2x11_1x10_y unpackF2x11_1x10_z asmF11F11F10
     floatTo11bit packed11bitToFloat packed11ToFloat float2packed11
     floatTo10bit packed10bitToFloat packed10ToFloat float2packed10 isZeroF isNaNF isInfF ltMinF geMaxF
-  bv_decide
+  bv_decide (config := { timeout := 180 })
 /-- `unpack ∘ pack ∘ unpack = unpack` for EVERY word (NaN codes become the canonical NaN code, which
 decodes to the same quiet NaN) -/
 theorem unpackF2x11_1x10_idem (v : UInt32) :
@@ -123,7 +123,7 @@ theorem unpackF2x11_1x10_idem (v : UInt32) :
   unfold packF2x11_1x10 unpackF2x11_1x10_x unpackF2x11_1x10_y unpackF2x11_1x10_z asmF11F11F10
     floatTo11bit packed11bitToFloat packed11ToFloat float2packed11
     floatTo10bit packed10bitToFloat packed10ToFloat float2packed10 isZeroF isNaNF isInfF ltMinF geMaxF
-  bv_decide
+  bv_decide (config := { timeout := 180 })
 
 /-! ### model = specification (`Spec.smallFloatBits`, `Spec.smallFloatEncode`), kernel enumeration
 of all 2048 / 1024 codes (independent of `bv_decide`) -/
@@ -181,11 +181,11 @@ theorem orig_exponent_wraps :
 theorem orig_f11_finite_roundtrip_partial (c : UInt32) (h : c < 0x800) (hf : !((c >>> 6) == 31)) :
     Orig.floatTo11bit (Orig.packed11bitToFloat c) = c := by
   unfold Orig.floatTo11bit Orig.packed11bitToFloat packed11ToFloat float2packed11 isZeroF isNaNF isInfF
-  bv_decide
+  bv_decide (config := { timeout := 180 })
 theorem orig_f10_finite_roundtrip_partial (c : UInt32) (h : c < 0x400) (hf : !((c >>> 5) == 31)) :
     Orig.floatTo10bit (Orig.packed10bitToFloat c) = c := by
   unfold Orig.floatTo10bit Orig.packed10bitToFloat packed10ToFloat float2packed10 isZeroF isNaNF isInfF
-  bv_decide
+  bv_decide (config := { timeout := 180 })
 
 example : floatTo11bit 0x3f800000 = 0x3c0 ∧ packed11bitToFloat 0x3c0 = 0x3f800000 := by decide
 example : noNaNCode 0x781e0000 = true := by decide
